@@ -201,6 +201,15 @@ def generate(seed, tier, index, pid=ID, spec_p=None, p_overlap=0.06, script_p=No
             # a step in which one channel fires billions of times (beyond the int range half of the time): every call returns
             e = C.giant_entry(rs.sub(j, "g"), rk.sub(j, "g")) if rs.sub(j, "gb").chance(0.5) else \
                 C.blowup_entry(rs.sub(j, "g"), rk.sub(j, "g"))
+        if j == 0 and spec is None and not overlap:
+            sc = None
+            if pid == "C11":
+                sc = "species" if index % 16 == 5 else ("cells4k" if index in (41, 121) else ("cells33k" if index == 13 else None))
+            elif index % 60 == 9:
+                sc = "species"
+            if sc:
+                # inputs at scales the ordinary generator never reaches (more than 32 species, thousands of cells)
+                e = C.scale_entry(rs.sub(j, "scale"), ru.sub(j), rk.sub(j), kind, sc, steps=(3, 8))
         if overlap and same_dims_spec is None:
             same_dims_spec = e["phys"]["spec"]
         scripts.append(e)
